@@ -598,6 +598,47 @@ theorem C15_gen_init_and_access (s : State) (F x : Name) :
     | none => rfl
     | some g => dsimp only; cases g.getFile x false <;> rfl
 
+/-! ### the request handlers and the validators -/
+
+/-- **The three handler closures of `FileSystem._init_request_manager` as translated — calling the translated `create_file`,
+`create_folder`, `get_file`, `access_file` — are the model's `createFile`, `createFolder` + `success`, `access`**, state and answer, for
+every state with `Inv` and all options: in particular the refusal of an unforced duplicate (`not request[2] and
+self.get_file(folder_name=request[0] or 'root', …)`) is the model's guard, and a create request on an existing file is `failure`
+(unforced) or `success` with the same single live file (forced) — never `raised`. -/
+theorem C15_gen_handlers {s : State} (h : Inv s) (F x : Name) (force : Bool) :
+    hCreateFileAction s F x force = createFile s F x force ∧
+    hCreateFolderAction s F = ((createFolder s F).1, .success) ∧
+    hAccessFileAction s F x = access s F x := by
+  refine ⟨?_, ?_, ?_⟩
+  · rw [C15_gen_create_file_request h]
+    unfold hCreateFileAction
+    have hsame : (if F != "" then F else "root") = (if F = "" then "root" else F) := by
+      by_cases hF : F = "" <;> simp [hF]
+    rw [hsame]
+    by_cases hc : (!force && (fsGetFile s (if F = "" then "root" else F) x false).isSome) = true
+    · simp [hc]
+    · simp only [hc, Bool.false_eq_true, if_false]
+      rcases hq : fsCreateFile s x F force with ⟨s', _ | f⟩ <;> simp
+  · unfold hCreateFolderAction
+    rw [C15_gen_create_folder]
+  · unfold hAccessFileAction access
+    rw [(C15_gen_get_file s F x false).2, (C15_gen_init_and_access s F x).2.2]
+    cases hq : getFile s F x <;> simp [ofBool]
+
+/-- **The five validators as translated are the model's guards**: `_FolderExistsValidator + _FolderNotDeletedValidator` = `folderGuard`,
+`_FileExistsValidator` (file system) = the live lookup, `_FileExistsValidator + _FileNotDeletedValidator` (folder) = `fileGuard`; each
+insists on as many options as it reads. -/
+theorem C15_gen_validators (s : State) (g : Folder) (F x : Name) :
+    (vFolderExists s F && vFolderNotDeleted s F) = folderGuard s F ∧
+    vFileExists s F x = (getFile s F x).isSome ∧
+    (vFolderFileExists g x && vFolderFileNotDeleted g x) = g.fileGuard x ∧
+    validatorArity = [("FileSystem._FolderExistsValidator", 1), ("FileSystem._FolderNotDeletedValidator", 1),
+      ("FileSystem._FileExistsValidator", 2), ("Folder._FileExistsValidator", 1), ("Folder._FileNotDeletedValidator", 1)] := by
+  refine ⟨rfl, ?_, ?_, rfl⟩
+  · unfold vFileExists; rw [(C15_gen_get_file s F x false).2]
+  · unfold vFolderFileExists vFolderFileNotDeleted Folder.fileGuard
+    cases g.getFile x false <;> simp
+
 /-! ### the report -/
 
 /-- **`describe_state` of `FileSystem` and of `Folder` as translated are the model's `describe`**: one `folders` entry per live folder
